@@ -131,7 +131,7 @@ func (o xOpts) textK() string { return o.KP + "text" }
 // genDecOpts draws a decoder option vector (all 2^k boolean combinations reachable).
 func (r *Rng) genDecOpts() xOpts {
 	o := defaultXOpts()
-	o.AP = r.pick([]string{"-", "-", "@", "_", "attr_", "", "A_"})
+	o.AP = r.pick([]string{"-", "-", "@", "_", "attr_", "", "A_", "--", "@@"})
 	o.TSeq = r.chance(0.2)
 	o.Lower = r.chance(0.3)
 	o.Snake = r.chance(0.3)
